@@ -11,7 +11,7 @@ RULE = 'histories over 2..3 addresses forced to overlapping flow ids (1..4), com
 EXPLANATION = "theorems: a message from one address leaves the flat map of every other address unchanged (every message kind); every transmission of a step goes to the address of the message being handled, and a command carries that message's flow id (commands_go_home, via runUser_spec for arbitrary interactive user code). Oracle checkC09 on the real trace"
 ASSUMPTIONS = ["user callbacks do not panic, issue commands only through their handle, and use field lists shorter than 2^24",
                "HashMap iteration order is canonicalised (install batches and drop batches are sorted)"]
-LEVEL_TEXT = "Machine-checked proof (Lean 4) that for every message kind, state, configuration and bounded policy the dispatch step changes only the sender's own flows (isolation even when flow ids coincide; a restart discards only that address) and that everything transmitted while handling a message from an address - install batch and every command issued through a flow handle at creation or later - is addressed to that address and carries that flow's id. Tied to the code by differential runs."
+LEVEL_TEXT = "Machine-checked proof (Lean 4) that for every message kind, state, configuration and bounded policy the dispatch step changes only the sender's own flows (isolation even when flow ids coincide; a restart discards only that address) and that everything transmitted while handling a message from an address - install batch and every command issued through a flow handle at creation or later - is addressed to that address and carries that flow's id. Tied to the code by differential runs. Lifted to EVERY history through the flat-map refinement (C02.history_refines_flat_map): spec_other_addresses_untouched, spec_callbacks_own_flows, spec_ready_discards_only_own are facts about the specification alone."
 LEVEL_NOTE = 'Trusts: Lean kernel; correspondence sampling; policy discipline.'
 TECHNIQUE = 'Lean 4 theorems (frame property of the dispatch step; destination/flow-id of all sends) + differential correspondence + Lean trace oracle'
 
